@@ -130,11 +130,58 @@ def rle_body(env, p):
 rle_sym, rle_real = both(rle_body)
 
 
+# ---------------------------------------------------------------------------
+# validation options: ensure_sorted must sort every chunk whatever the other checks are set to
+# ---------------------------------------------------------------------------
+def options_body(env, p):
+    import itertools
+    env.reset()
+    co = env.cooler
+    layout, K, m, upper = p["layout"], p["K"], p["m"], p["upper"]
+    n = sum(layout)
+    bins = concrete_bins(layout, "fixed")
+    from .common import env_pixels
+    b1, b2, v = env_pixels(env, n, K, upper)
+    flags = {k: bool(env.bool(k)) for k in ("boundscheck", "triucheck", "dupcheck")}
+    if env.symbolic:
+        cuts = sym_cuts(K, m)
+    else:
+        cuts = real_cuts(env.inputs, K, m)
+    # records inside each chunk arrive in a solver-chosen order; ensure_sorted=True has to repair that
+    order = []
+    for ci, (lo, hi) in enumerate(zip(cuts[:-1], cuts[1:])):
+        perms = list(itertools.permutations(range(lo, hi)))
+        k = env.choice(f"perm{ci}", len(perms)) if len(perms) > 1 else 0
+        order.extend(perms[k])
+    env.cover("chunk_unsorted", order != sorted(order))
+    dts = {"bin1_id": "int64", "bin2_id": "int64", "count": "int32"}
+    cols = {"bin1_id": [b1[i] for i in order], "bin2_id": [b2[i] for i in order], "count": [v[i] for i in order]}
+    path = scratch_file("c02o.cool")
+    stream = chunk_stream(cols, cuts, lambda items, k: env.array(list(items), dts[k]))
+    co.create_cooler(path, bins, stream, ordered=True, symmetric_upper=upper, ensure_sorted=True, **flags)
+    if env.symbolic:
+        prove_valid(path)
+    else:
+        validity_real(path)
+    f = env.h5.File(path, "r")
+    out = [list(f["pixels/bin1_id"][:]), list(f["pixels/bin2_id"][:])]
+    f.close()
+    return out
+
+
+options_sym, options_real = both(options_body)
+
+
 CHECKS = [
     Check("create", _create_cases, create_sym, create_real, labels=("zero_chunks", "empty_rows"),
           doc="ordered create() from any sorted stream (zero chunks, empty chunks): raw store satisfies the schema predicate",
           bounds=dict(quick="<=2 chromosomes, n<=3, K<=3, m<=2 chunks (and the zero-chunk stream)", thorough="n<=4, K<=4, m<=3"),
           stubs=("E3 in-memory h5py model", "E4 pandas models on symbolic columns"), timeout=1500),
+    Check("create_options", lambda tier: [dict(layout=[2], K=2, m=1, upper=u) for u in (True, False)] + ([dict(layout=[2, 1], K=3, m=2, upper=True)] if tier != "quick" else []),
+          options_sym, options_real, labels=("chunk_unsorted",),
+          doc="create with ensure_sorted=True and every combination of boundscheck/triucheck/dupcheck, records inside each chunk in a solver-chosen order: "
+              "the output is a valid CSR collection",
+          bounds=dict(quick="K=2 records in one chunk, 8 flag combinations, both modes", thorough="K=3 in 2 chunks")),
     Check("index_blocks", lambda tier: [dict(L=L, n=n) for L, n in ([(3, 3), (4, 3)] if tier == "quick" else [(3, 3), (5, 4), (6, 4)])],
           index_sym, index_real, labels=("run_spans_blocks",),
           doc="index_pixels with rlencode's block size made symbolic (1..L+1) instead of 1e6: offsets == run-length index",
